@@ -79,6 +79,7 @@ KEEP = {
     "pe": ("s", "key"), "peret": ("s", "act"), "apply": ("key", "act"), "lookup": ("key", "found"),
     "idle_run": ("i",), "idle_ret": ("i",), "drop_src": ("s",), "drop_cb": ("s",),
     "bs": ("s", "r"), "bhe": ("s", "keys"), "batch": ("keys",), "synth": ("keys",),
+    "poll": ("s", "f", "k"), "pollret": ("s", "f", "r", "v"), "fdrop": ("s", "f"),
 }
 
 
@@ -105,7 +106,19 @@ def project(events):
                 v = json.dumps(v)
             row.append(v)
         out.append(tuple(row))
-    return out
+    # futures dropped by one Executor::drop come in slab order, which the model does not track: compare them as a set
+    res, i = [], 0
+    while i < len(out):
+        if out[i][0] == "fdrop":
+            j = i
+            while j < len(out) and out[j][0] == "fdrop":
+                j += 1
+            res.append(("fdrops",) + tuple(sorted(out[i:j])))
+            i = j
+        else:
+            res.append(out[i])
+            i += 1
+    return res
 
 
 def compare(pred_events, real_events):
